@@ -694,6 +694,42 @@ def _r4(ctx, pkg, rule="R4"):
 
     undecided = []
 
+    # the scenario, evaluated on the IR: `reaction` is a non-empty list of ints
+    def scen_val(v):
+        while v[0] in ("ifexp", "phi") and len(v) == 4:
+            t = scen(v[1])
+            if t is None:
+                break
+            v = v[2] if t else v[3]
+        return v
+
+    def scen(c, ints=frozenset()):
+        c = simp(c)
+        if c[0] == "unop" and c[1] == "Not":
+            x = scen(c[2], ints)
+            return None if x is None else not x
+        if c[0] == "bool":
+            vals = [scen(x, ints) for x in c[2]]
+            if c[1] == "And":
+                return False if any(x is False for x in vals) else None if any(x is None for x in vals) else True
+            return True if any(x is True for x in vals) else None if any(x is None for x in vals) else False
+        if c[0] == "call" and c[1] == ("global", "isinstance") and len(c[2]) == 2 and not c[3]:
+            x, T = c[2]
+            types = list(T[1]) if T[0] == "tuple" else [T]
+            if not all(t[0] == "global" for t in types):
+                return None
+            names = {t[1] for t in types}
+            if scen_val(x) == R:
+                return "list" in names
+            if x in ints:
+                return "int" in names
+            return None
+        if c[0] == "call" and c[1] in (("global", "all"), ("global", "any")) and len(c[2]) == 1 and not c[3]:
+            comp = c[2][0]
+            if comp[0] == "comp" and len(comp[3]) == 1 and not comp[3][0][2] and comp[3][0][0] is not None and comp[3][0][0][0] == "bv" and scen_val(comp[3][0][1]) == R:
+                return scen(comp[2], ints | {comp[3][0][0]})        # over a non-empty list of ints, every element alike: the body for an int element
+        return None
+
     def reachable(guards):
         gs = []
         for g, pol in guards:
@@ -704,7 +740,11 @@ def _r4(ctx, pkg, rule="R4"):
         extra = []
         for a_ in atoms:
             hit = False
-            for pat, val in SCEN:
+            val = scen(a_)
+            if val is not None:
+                extra.append((a_, val))
+                hit = True
+            for pat, val in (SCEN if not hit else ()):
                 if re.search(pat, show(a_)):
                     extra.append((a_, val))
                     hit = True
@@ -752,17 +792,23 @@ def _r4(ctx, pkg, rule="R4"):
             ok = it == ("call", ("global", "enumerate"), (RL,), ()) and tg[0] == "tuple" and v[2] == tg[1][1] and tuple(ifs) == (("cmp", ("NotIn",), (tg[1][0], R)),)
             # a filter over the list itself with another test is understood -- and wrong (by value, by `idx in`, ...)
             # (positive evidence only when the statement is known to run for a list of positions)
-            # (positive evidence only when the statement is known to run for a list of positions and the test is a plain
-            # comparison of the loop's own variables with the argument -- a predicate that is called is not understood, not wrong)
-            bound = {x for x in walk(tg) if isinstance(x, tuple) and x and x[0] == "bv"}
-
-            def plain(c):
-                if c[0] == "unop" and c[1] == "Not":
-                    return plain(c[2])
-                if c[0] == "bool":
-                    return all(plain(x) for x in c[2])
-                return c[0] == "cmp" and all(x in bound or x == R or x[0] == "const" for x in c[2])
-            wrong = not ok and sure and it in (RL, ("call", ("global", "enumerate"), (RL,), ())) and all(plain(c) for c in ifs)
+            # positive evidence only when the statement is known to run for a list of positions and the filter is ONE comparison this
+            # rule reads: the ELEMENT compared with anything (removal by value: equal copies go too / nothing matches the integers),
+            # or the position tested with `in` / `==` (the listed ones are kept).  `idx not in <set / tuple / list view of the
+            # argument>` is the same selection as `idx not in reaction`.  A predicate that is called is not understood, not wrong.
+            over = it in (RL, ("call", ("global", "enumerate"), (RL,), ()))
+            elem_bv = tg if it == RL else tg[1][1] if tg[0] == "tuple" and len(tg[1]) == 2 else None
+            idx_bv = tg[1][0] if it != RL and tg[0] == "tuple" and len(tg[1]) == 2 else None
+            c = ifs[0] if len(ifs) == 1 else None
+            if not ok and over and c is not None and c[0] == "cmp" and len(c[1]) == 1 and v[2] == elem_bv:
+                op, (lhs, rhs) = c[1][0], c[2]
+                view = rhs[2][0] if rhs[0] == "call" and rhs[1] in (("global", "set"), ("global", "frozenset"), ("global", "tuple"), ("global", "list")) and len(rhs[2]) == 1 and not rhs[3] else rhs
+                if lhs == idx_bv and idx_bv is not None and op == "NotIn" and view == R:
+                    ok = True
+                elif sure and lhs == elem_bv and op in ("NotIn", "In", "NotEq", "Eq"):
+                    wrong = True
+                elif sure and lhs == idx_bv and idx_bv is not None and op in ("In", "Eq") and any(x == R for x in walk(rhs)):
+                    wrong = True
         verdicts.append((ok, wrong, v, f))
     if all(o for o, _, _, _ in verdicts):
         ctx.ok(rule, K, W, "exactly the reactions whose position is not listed survive (repeated indices are harmless)")
@@ -1132,4 +1178,15 @@ BENIGN += [
         {"file": "naunet/species.py", "old": "    def __repr__(self) -> str:\n", "new": _KEYPROP % "self.name"}]},
     {"name": "species-lt-guard-clause", "file": "naunet/species.py", "old": "        if isinstance(o, Species):\n            return self.name < o.name\n        return NotImplemented\n",
      "new": "        if not isinstance(o, Species):\n            return NotImplemented\n        return o.name > self.name\n"},
+]
+MUTANTS += [
+    # the positions resolved to objects first, then removal by value: every reaction EQUAL to a listed one goes too
+    {"name": "removal-of-the-objects-at-the-positions", "file": NF, "old": _RM,
+     "new": "        elif isinstance(reaction, list) and all(isinstance(r, int) for r in reaction):\n            gone = [self.reaction_list[i] for i in reaction]\n"
+            "            self.reaction_list = [r for r in self.reaction_list if r not in gone]\n", "rules": ["R4"]},
+]
+BENIGN += [
+    {"name": "removal-by-position-through-a-set", "file": NF, "old": _RM,
+     "new": "        elif isinstance(reaction, list) and all(isinstance(r, int) for r in reaction):\n"
+            "            self.reaction_list = [r for i, r in enumerate(self.reaction_list) if i not in set(reaction)]\n"},
 ]
